@@ -346,6 +346,83 @@ def driftOp (inp impl : Json) : Except String Resp := do
     else (true, "")
   pure { model := some model, spec := some ok, why := why }
 
+/-- one static-drift pass over several pools -/
+structure DPool where
+  static : Bool
+  replicas : Int
+  nodes : Nat
+  limit : Option Int
+  budget : Nat
+  drifted : Nat
+  marked : Nat
+  held : Int
+  lost : List Nat
+  createFail : List Nat
+
+def parseDPool (j : Json) : Except String DPool := do
+  let replicas ← intF j "replicas"
+  let extra ← intD j "extra"
+  pure { static := ← boolF j "static", replicas := replicas, nodes := (replicas + extra).toNat, limit := ← intO j "limit",
+         budget := ← natF j "budget", drifted := ← natF j "drifted", marked := ← natF j "marked", held := ← intF j "held",
+         lost := ← natList (← fld j "lost"), createFail := ← natList (← fld j "createFail") }
+
+def parsePassObs (j : Json) : Except String Karp.Spec.Static.PassObs := do
+  pure { commands := ← natF j "commands", a := ← natF j "a", d := ← natF j "d", p := ← natF j "p",
+         total := ← natF j "total", reserved := ← intF j "reserved" }
+
+def driftPoolsOp (inp impl : Json) : Except String Resp := do
+  let pools ← (← arrF inp "pools").mapM parseDPool
+  -- the cluster as the harness builds it: pool i is named i+1, its NodeClaims 100(i+1)+k, all launched; the last
+  -- `marked` ones are marked for deletion; another reconcile holds `held` slots
+  let name (i : Nat) : Nat := i + 1
+  let idsOf (i : Nat) (P : DPool) : List Nat := (List.range P.nodes).map (· + 100 * (i + 1))
+  let markedOf (P : DPool) : Nat := min P.marked P.nodes
+  let s0 := pools.zipIdx.foldl (fun s (P, i) =>
+    let s := (idsOf i P).foldl (fun s id => update s (name i) id false) s
+    ((idsOf i P).drop (P.nodes - markedOf P)).foldl (fun s id => markDeleting s (name i) id) s) State.init
+  let s1 := pools.zipIdx.foldl (fun s (P, i) =>
+    if P.held > 0 then (reserve s (name i) (nodeLimit P.limit) P.held).1 else s) s0
+  let heldGranted (i : Nat) : Int := reservedOf s1 (name i)
+  -- candidates: `StaticDrift.ShouldDisrupt` = static pool and Drifted; nodes marked for deletion are no candidates
+  let candsOf (i : Nat) (P : DPool) : List Nat :=
+    if P.static then (idsOf i P).take (min P.drifted (P.nodes - markedOf P)) else []
+  -- `BuildDisruptionBudgetMapping`: a `nodes: "<n>"` budget minus the nodes already being disrupted
+  let budgetOf (P : DPool) : Nat := P.budget - markedOf P
+  let ins : List PoolIn := (pools.zipIdx.filter (fun (P, i) => !(candsOf i P).isEmpty)).map (fun (P, i) =>
+    { p := name i, replicas := P.replicas, limit := P.limit, budget := budgetOf P, cands := candsOf i P,
+      lost := P.lost, createFail := P.createFail, next := 100 * (i + 1) + 50 })
+  let r := driftPass Karp.Gen.C03Pool.staticDriftCapArgs s1 ins
+  let resultOf (i : Nat) : Option DriftResult :=
+    match (ins.zip r.results).find? (fun (P, _) => P.p == name i) with
+    | some (_, x) => some x
+    | none => none
+  let anyFailed := r.results.any (fun x => x.failed > 0)
+  let model := jObj [
+    ("pools", jArr (pools.zipIdx.map fun (P, i) =>
+      let x := resultOf i
+      let c := counts r.st (name i)
+      jObj [("held", jInt (heldGranted i)), ("budget", jNat (budgetOf P)), ("cands", jNat (candsOf i P).length),
+            ("commands", jNat ((x.map (·.commands)).getD 0)), ("started", jNat ((x.map (·.started)).getD 0)),
+            ("failed", jNat ((x.map (·.failed)).getD 0)),
+            ("a", jNat c.1), ("d", jNat c.2.1), ("p", jNat c.2.2),
+            ("total", jNat (P.nodes + (x.map (·.created)).getD 0)),
+            ("reserved", jInt (reservedOf r.st (name i) - heldGranted i))])),
+    ("err", jStr (if anyFailed then "error" else "")), ("panic", jBool r.panicked)]
+  -- the specification on what the real code did
+  let panicI ← boolF impl "panic"
+  let obs ← (← arrF impl "pools").mapM parsePassObs
+  if obs.length != pools.length then throw "pools/observations length mismatch"
+  let heldI ← (← arrF impl "pools").mapM (fun j => intF j "held")
+  let specPools : List Karp.Spec.Static.PassPool := pools.zipIdx.map fun (P, i) =>
+    { static := P.static, limit := P.limit, nodes := P.nodes,
+      drifted := min P.drifted (P.nodes - markedOf P), marked := markedOf P, held := heldI.getD i 0 }
+  let (ok, why) :=
+    if panicI then (false, "the static-drift pass panicked")
+    else match Karp.Spec.Static.firstBadPool 0 specPools obs with
+      | some (i, w) => (false, s!"pool {i}: {w}")
+      | none => (true, "")
+  pure { model := some model, spec := some ok, why := why }
+
 end Static
 
 def handle : Handler := fun op inp impl =>
@@ -358,6 +435,7 @@ def handle : Handler := fun op inp impl =>
   | "c03.static" => staticOp inp impl
   | "c03.create" => createOp inp impl
   | "c03.drift" => driftOp inp impl
+  | "c03.driftpools" => driftPoolsOp inp impl
   | _ => .error s!"unknown op {op}"
 
 end Karp.Driver.C03
